@@ -168,3 +168,22 @@ theorem out_of_alphabet_faults (nt aa : Alphabet) (g : Gencode) (a b c : Nat) (h
   · simp [getTranslation, hc, loopX, hd]
   · simp [isInitiator, hc, loopX, hd]
 end EaselModel.Gencode
+
+namespace EaselModel.Gencode
+open EaselModel.Alphabet
+/-- a window shorter than a codon (0, 1 or 2 residues, e.g. a first window of 2) leaves the machine untouched: the `rpos`
+    loop of `esl_gencode_ProcessPiece` runs `n − 2 ≤ 0` times -/
+theorem processPiece_short (nt aa : Alphabet) (g : Gencode) (cfg : Cfg) (w : Work) (d : List Nat) (h : d.length < 3) :
+    processPiece nt aa g cfg w d = some w := by
+  match d, h with
+  | [], _ => rfl
+  | [_], _ => rfl
+  | [_, _], _ => rfl
+
+/-- a later window that brings `k ≥ 1` new residues after its 2-residue context processes exactly `k` codons: with one new
+    residue (window size 1) exactly one `pieceStep` -/
+theorem processPiece_one (nt aa : Alphabet) (g : Gencode) (cfg : Cfg) (w : Work) (a b c : Nat) :
+    processPiece nt aa g cfg w [a, b, c] = pieceStep nt aa g cfg w a b c := by
+  simp only [processPiece]
+  cases pieceStep nt aa g cfg w a b c <;> rfl
+end EaselModel.Gencode
